@@ -462,3 +462,10 @@ func typeInvariant(t types.Type, v Val, allocBound *Term) []*Term {
 	}
 	return out
 }
+
+func deref(t types.Type) types.Type {
+	if p, ok := t.Underlying().(*types.Pointer); ok {
+		return p.Elem()
+	}
+	return t
+}
